@@ -759,6 +759,7 @@ def check(ctx):
         ctx.floor(rule, "native restriction sites", k, 3)
         deps.semantics_base(ctx, lib)
         deps.nogood_primitives(ctx, lib)
+        deps.stability_check(ctx, lib)   # the acceptance test of the stable mode
     deps.cli_plumbing(ctx)
     if ctx.tier == "thorough":
         from rules import witness
